@@ -42,6 +42,7 @@ func main() {
 	}
 	bad := false
 	nSites := 0
+	nLock := 0
 	for _, p := range pkgs {
 		for _, e := range p.Errors {
 			fmt.Fprintln(os.Stderr, "pkg error:", e)
@@ -81,13 +82,72 @@ func main() {
 				fmt.Fprintf(os.Stderr, "maporder: site %s\n", strings.TrimPrefix(p.Fset.Position(rs.Pos()).String(), repo+"/"))
 				return true
 			})
-			if len(edits) == 0 {
-				continue
-			}
 			src, err := os.ReadFile(fname)
 			if err != nil {
 				fmt.Fprintln(os.Stderr, err)
 				os.Exit(2)
+			}
+			// second rewrite, package stage only: a scheduling point in front of
+			// every acquisition of a per-file lock (`x := s.getPathLock(arg)` ...
+			// `x.Lock()` / `x.RLock()`), so that whatever the code does before it
+			// takes the lock can be interleaved with other holders. It follows the
+			// source as it is: work moved out of a critical section ends up on the
+			// far side of the scheduling point.
+			if strings.HasSuffix(p.PkgPath, "/stage") {
+				ast.Inspect(f, func(n ast.Node) bool {
+					fd, ok := n.(*ast.FuncDecl)
+					if !ok || fd.Body == nil {
+						return true
+					}
+					args := map[string]string{}
+					ast.Inspect(fd.Body, func(m ast.Node) bool {
+						as, ok := m.(*ast.AssignStmt)
+						if !ok || len(as.Lhs) != 1 || len(as.Rhs) != 1 {
+							return true
+						}
+						id, ok := as.Lhs[0].(*ast.Ident)
+						call, ok2 := as.Rhs[0].(*ast.CallExpr)
+						if !ok || !ok2 || len(call.Args) != 1 {
+							return true
+						}
+						if sel, ok := call.Fun.(*ast.SelectorExpr); ok && sel.Sel.Name == "getPathLock" {
+							a := call.Args[0]
+							args[id.Name] = string(src[p.Fset.Position(a.Pos()).Offset:p.Fset.Position(a.End()).Offset])
+						}
+						return true
+					})
+					if len(args) == 0 {
+						return false
+					}
+					ast.Inspect(fd.Body, func(m ast.Node) bool {
+						es, ok := m.(*ast.ExprStmt)
+						if !ok {
+							return true
+						}
+						call, ok := es.X.(*ast.CallExpr)
+						if !ok || len(call.Args) != 0 {
+							return true
+						}
+						sel, ok := call.Fun.(*ast.SelectorExpr)
+						if !ok || (sel.Sel.Name != "Lock" && sel.Sel.Name != "RLock") {
+							return true
+						}
+						id, ok := sel.X.(*ast.Ident)
+						if !ok {
+							return true
+						}
+						if arg, ok := args[id.Name]; ok {
+							edits = append(edits, edit{p.Fset.Position(es.Pos()).Offset, "fileutil.VerifPoint(\"stage.pathlock\", " + arg + "); "})
+							nLock++
+							fmt.Fprintf(os.Stderr, "maporder: lock site %s\n", strings.TrimPrefix(p.Fset.Position(es.Pos()).String(), repo+"/"))
+						}
+						return true
+					})
+					return false
+				})
+			}
+			if len(edits) == 0 {
+				continue
 			}
 			// import fileutil if needed
 			needImport := p.PkgPath != "github.com/arm-doe/sts/fileutil"
@@ -122,4 +182,5 @@ func main() {
 		os.Exit(2)
 	}
 	fmt.Fprintf(os.Stderr, "maporder: %d sites rewritten\n", nSites)
+	fmt.Fprintf(os.Stderr, "maporder: %d lock sites instrumented\n", nLock)
 }
